@@ -25,6 +25,7 @@ REG = 35100
 
 MARKERS = b"\xaa\x55\x7f\xc0\xaa\x55\xc0\x7f\xf7\x03\x06\xaa\x55\xf7\x83\x02\x01\x86\xff\xff"
 CONTENT = "pattern"  # module-level switch set per case (content class of the payload)
+AA55_READ = False    # AA55 only: use the Aa55ReadCommand class (register read, response type 019A) instead of the plain runtime-data command
 MBAP = None          # Modbus/TCP only: value put into the MBAP length field of the answers (None = the consistent one).  GoodWe
                      # firmware is known to send inconsistent MBAP lengths; the library documents that it ignores the field (D1),
                      # so such an answer is a valid frame whether it arrives in one piece or two
@@ -49,6 +50,10 @@ def frames(transport, count):
         if MBAP is not None:
             fa, fb = (f[:4] + (MBAP & 0xFFFF).to_bytes(2, "big") + f[6:] for f in (fa, fb))
         return ("read", REG, count), fa, fb
+    if AA55_READ:
+        # the library's AA55 register read command (ES settings registers): count // 2 registers, payload 2 x that
+        n = max(1, min(125, count // 2))
+        return ("aa55read", 0x701, n), rw.aa55_response(b"\x01\x9a", payload_for(REG, 2 * n)), rw.aa55_response(b"\x01\x9a", payload_for(REG + 1, 2 * n))
     # AA55: runtime data read, payload length = count (0..255)
     return ("aa55", "010600", "0186"), rw.aa55_response(b"\x01\x86", payload_for(REG, count)), \
         rw.aa55_response(b"\x01\x86", payload_for(REG + 1, count))
@@ -85,13 +90,15 @@ def resolve(spec, F, F2):
 
 
 def check_case(acc: Acc, case):
-    global CONTENT, MBAP
+    global CONTENT, MBAP, AA55_READ
     CONTENT = case.get("content", "pattern")
     MBAP = case.get("mbap")
+    AA55_READ = bool(case.get("aa55read"))
     acc.case()
     transport, T, R, count = case["transport"], case["T"], case["R"], case["count"]
     cmd, F, F2 = frames(transport, count)
     MBAP = None
+    AA55_READ = False
     script = []
     split = False
     labelled = []  # per transmission: list of (ticks, bytes, spec)
@@ -113,7 +120,7 @@ def check_case(acc: Acc, case):
         if len(pieces) >= 2:
             split = True
     if split:
-        acc.nontrivial(transport, case["keep"], T, R, count, repr(case["tx"]), CONTENT, case.get("mbap"), case.get("api", False))
+        acc.nontrivial(transport, case["keep"], T, R, count, repr(case["tx"]), CONTENT, case.get("mbap"), case.get("api", False), bool(case.get("aa55read")))
     c = {"transport": transport, "keep": case["keep"], "T": T, "R": R, "script": script, "latency": case.get("latency", 0), "api": case.get("api", False)}
     obs = netcase.run_single(c, command=cmd)
     out = obs.outcome
@@ -199,8 +206,15 @@ def check_after_prior(acc: Acc, case):
     cmd, F, F2 = frames(transport, count)
     s1, a1, a2 = case["prior"]            # split point and the two delivery ticks of the prior request's answer
     s2, b1, b2 = case["split"]
-    acc.nontrivial("after-prior", transport, case["keep"], T, R, count, tuple(case["prior"]), tuple(case["split"]), case.get("gap"))
-    steps = [{"op": "request", "script": [["multi", [[a1, F[:s1]], [a2, F[s1:]]]]], "command": cmd}]
+    acc.nontrivial("after-prior", transport, case["keep"], T, R, count, tuple(case["prior"]), tuple(case["split"]), case.get("gap"), case.get("prior_kind"))
+    kind = case.get("prior_kind", "exact")
+    if kind == "then_full":        # the prior request got a first fragment and then the whole frame again: it succeeds, a fragment is left behind
+        first = [["multi", [[a1, F[:s1]], [a2, F]]]]
+    elif kind == "then_exc" and transport != "aa55":      # ... a first fragment and then an exception frame: it is rejected
+        first = [["combo", [["multi", [[a1, F[:s1]]]], ["exc", a2, 2]]]]
+    else:
+        first = [["multi", [[a1, F[:s1]], [a2, F[s1:]]]]]
+    steps = [{"op": "request", "script": first, "command": cmd}]
     if case.get("gap"):
         steps.append({"op": "sleep", "ticks": case["gap"]})
     steps.append({"op": "request", "script": [["multi", [[b1, F[:s2]], [b2, F[s2:]]]]], "command": cmd})
@@ -211,7 +225,7 @@ def check_after_prior(acc: Acc, case):
     if len(reqs) < 2 or reqs[-1].hang is not None:
         return [("C07|%s|after-prior|hang" % transport, "history does not complete", case)]
     first, second = reqs[0], reqs[-1]
-    if first.kind != "ok":
+    if first.kind != "ok" and kind == "exact":
         return []  # the prior request is only the history; its own reassembly is the subject of the single-request cases
     if second.kind != "ok":
         fails.append(("C07|%s|after-prior|exact-remainder-not-reassembled" % transport,
@@ -241,6 +255,16 @@ def prior_job(job):
                                 "prior": [s1, a1, a2], "split": [s2, b1, b2], "gap": gap}
                         for key, msg, c in check_after_prior(acc, case):
                             acc.fail(key, msg, c)
+    # the prior request leaves a fragment behind (fragment + whole frame, fragment + exception frame); the request under test is split so
+    # that its first piece is exactly as long as what the stale fragment was missing - and at other points
+    for kind in ("then_full", "then_exc"):
+        for s1 in splits:
+            for s2 in sorted({len(F) - s1, hdr, len(F) // 2} & set(range(hdr, len(F)))):
+                for gap in (0, 3):
+                    case = {"after_prior": True, "transport": transport, "keep": keep, "T": 1.0, "R": 1, "count": count,
+                            "prior": [s1, 2, 6], "split": [s2, 1, 4], "gap": gap, "prior_kind": kind}
+                    for key, msg, c in check_after_prior(acc, case):
+                        acc.fail(key, msg, c)
     if len(acc.samples) < 1:
         acc.sample(case)
     return acc
@@ -354,6 +378,16 @@ def positive_job(job):
                         "tx": [[[d1, ["head", s]], [d2, ["tail", s]]]]}
                 _apply(acc, case)
     CONTENT = "pattern"
+    if transport == "aa55" and count >= 2:
+        # the same with the library's AA55 register-read command class (its own validator parameters)
+        global AA55_READ
+        AA55_READ = True
+        cmd, F, F2 = frames(transport, count)
+        AA55_READ = False
+        for s in range(1, len(F)):
+            for d1, d2 in ((2, 8), (0, 15)):
+                _apply(acc, {"transport": transport, "keep": keep, "T": T, "R": R, "count": count, "aa55read": True,
+                             "tx": [[[d1, ["head", s]], [d2, ["tail", s]]]]})
     cmd, F, F2 = frames(transport, count)
     if transport == "tcp":   # inconsistent MBAP length fields (firmware quirk the library tolerates), every split point
         for mbap in (6, 0, 0xFFFF, len(F) - 5, len(F) - 7, 2 * count):
